@@ -126,11 +126,11 @@ def install(proj) -> None:
                 shared_runtime()
                 args, kw = ev._call_args(node)
                 return True, ext["rt"].new(r[1], args, kw, None)
-        if len(parts) == 2 and parts[0] not in ev.env and ev.module is not None:
-            # np.isclose(...) with `import numpy as np`
+        if len(parts) >= 2 and parts[0] not in ev.env and ev.module is not None:
+            # np.isclose(...) / np.random.randint(...) with `import numpy as np`
             target = ev.module.imports.get(parts[0])
             if target and not target.startswith(proj.package):
-                return external(ev, node, f"{target}.{parts[1]}")
+                return external(ev, node, ".".join([target] + parts[1:]))
         return False, None
 
     ext = {}
